@@ -340,6 +340,15 @@ def build(scene, state=None, assemble=True, options=None, names=None, extra=None
         if ac["type"] == "motor":
             amp = float(ac["tau"])
             c = Motor(jt, (lambda t, amp=amp, s=s: amp * s(t)))
+        elif ac["type"] == "pid":
+            from cardillo.actuators import PIDcontroller
+
+            tgt = np.array(ac["target"], dtype=float)
+            c = PIDcontroller(jt, kp=ac["kp"], ki=ac["ki"], kd=ac["kd"], tau=(lambda t, tgt=tgt, s=s: tgt * s(t)))
+            # the integral of the control error is a coordinate of the controller (state override on rebuilds)
+            c.q0 = np.array([float(ac.get("q0", 0.0))])
+            if state is not None and k in state.get("pid", {}):
+                c.q0 = np.array([float(state["pid"][k])])
         else:
             tgt = np.array(ac["target"], dtype=float)
             c = PDcontroller(jt, kp=ac["kp"], kd=ac["kd"], tau=(lambda t, tgt=tgt, s=s: tgt * s(t)))
